@@ -142,6 +142,12 @@ def c13(run):
     s = i2s_env(run, 6, 60 if t else 8, 300, "hist_nv6")
     # a few long histories over more variables: the unique table grows to thousands of nodes
     i2s_env(run, 7, 20 if t else 2, 700 if t else 500, "hist_nv7_long")
+    # far beyond what Trace_Env can hold (it keeps the whole node table as a TLA+ value): thousands of calls in ONE environment
+    # whose table grows to ~10^5 nodes while old results are dropped; every call is screened by the harness's truth-table
+    # oracle, the flagged ones and a regular sample are validated by Trace_Bdd (result = the specification's result,
+    # independent of the history)
+    checks_bdd.record_and_validate(run, 7, "history", 30000 if t else 5000, "bin,not,ite,quant,model,retain", "long_history_nv7")
+    checks_bdd.record_and_validate(run, 5, "history", 200000 if t else 40000, "bin,not,ite,quant", "long_history_nv5")
     run.nontrivial = s["events_where_table_grew"]
     run.assumptions += ["pointer identities are observed through Rc::as_ptr with every observed Rc kept alive",
                         "intermediate table contents are not required to match Env.tla's algorithmic model"]
@@ -156,9 +162,13 @@ def c02(run):
     mc_env(run, 2, 2, 2, "mc_env_nv2", listmax=2 if t else 1)
     s2i_env(run, 3, 16, 4000 if t else 400, "beh_nv3")
     s = i2s_env(run, 6, 40 if t else 8, 300, "hist_nv6")
+    # operands that live in ANOTHER environment (what two BDDSet::new sets or a {definition} hand to an operation): the result
+    # must still be the canonical diagram of the function (Trace_Bdd: structure = specification's result, WF)
+    checks_bdd.record_and_validate(run, 3, "uniform", 6000 if t else 1500, "xbin,xite", "cross_env_nv3")
+    checks_bdd.record_and_validate(run, 5, "random", 3000 if t else 600, "xbin,xite", "cross_env_nv5")
     run.nontrivial = s["max_table_size"]
     run.exhaustive = True
 
 
 CHECKS = {"C13": c13, "C02": c02}
-REPLAYS = {"env-history": replay_env_history, "env-behaviour": replay_env_behaviour}
+REPLAYS = {"env-history": replay_env_history, "env-behaviour": replay_env_behaviour, "exec-bdd": checks_bdd.replay_exec_bdd, "bdd-history": checks_bdd.replay_bdd_history}
